@@ -15,7 +15,7 @@ pub static DEF: CheckDef = CheckDef {
     rule: "for each supported cartridge type (0x00, 0x01-0x03, 0x11-0x13) x ROM size code (0-8, 0x52-0x54) x RAM size code (0-5): (a) the complete product of controller register values (MBC1: 32 x 4 x 2, MBC3: 128 x 16, each value written at several addresses of its register's range), (b) proptest histories of up to 40 (address < 0x8000, value) writes biased to the register-range edges and to the values 0, 1, 0x1F, 0x20, 0x21, 0x3F, 0x40, 0x60, 0x7F, 0x80, 0xFF. After every write the bank visible at 0x0000, at 0x4000-0x7FFF (ROM banks carry their index; through data reads and through the instruction-fetch view) and at 0xA000-0xBFFF (RAM banks carry theirs) is compared with the reference controller model. Non-trivial = history that selects value 0, a multiple of 0x20, mode 1 or a bank beyond the ROM size; distinct by hash of (configuration, history).",
     assumptions: &[
         "models::mbc (register protocol from the controller documentation); set-valued where documentation differs: MBC1 mode 1 may or may not apply the upper bits at 0x4000-0x7FFF",
-        "RAM enable is not asserted; RAM contents are only asserted for RAM sizes of at least one 8 KiB bank; MBC3 RTC register selections (0x4000-0x5FFF value >= 4) suspend the RAM-bank assertion",
+        "RAM enable is not asserted; for 2 KiB RAM the window must show the same 2 KiB four times; RAM bank contents are asserted for RAM sizes of at least one 8 KiB bank; MBC3 RTC register selections (0x4000-0x5FFF value >= 4) suspend the RAM-bank assertion",
         "for 72/80/96-bank ROMs only selections below the bank count are asserted",
     ],
     required_classes: &["value-zero", "multiple-of-0x20", "mode-1", "beyond-size", "mbc3", "rom-only"],
@@ -108,6 +108,19 @@ pub fn probe(c: &mut Cart) -> Result<(), (String, String)> {
                 if fb != vis || len != 0x4000 {
                     return Err(("fetch-view-bank".into(), format!("instruction fetch at 0x4000 sees bank {} ({} bytes), data reads see bank {} (registers: low={:#x} upper={} mode={}, {} banks)", fb, len, vis, c.model.rom_low, c.model.upper, c.model.mode as u8, c.banks)));
                 }
+            }
+        }
+    }
+    if c.ram_bytes == 2048 {
+        // a 2 KiB RAM is smaller than the window: "reduced to the cartridge's actual size"
+        // means the window shows the one 2 KiB RAM four times, whatever bank is selected
+        let k = (c.model.rom_low as u16 * 37 + c.model.upper as u16 * 5) & 0x7ff;
+        let v = 0x40 | (c.model.rom_low ^ (c.model.upper << 3));
+        c.m.write(0xa000 + k, v);
+        for mirror in [0x0800u16, 0x1000, 0x1800] {
+            let got = c.m.read(0xa000 + k + mirror);
+            if got != v {
+                return Err(("ram-2k-mirror".into(), format!("2 KiB cartridge RAM: {:#04x} written to {:#06x} reads back as {:#04x} at {:#06x} (the window must show the same 2 KiB)", v, 0xa000 + k, got, 0xa000 + k + mirror)));
             }
         }
     }
